@@ -139,6 +139,24 @@ def menu():
         ('utils.dec2bin', lambda I: utils.dec2bin(5, 4), True),
         ('utils.rcos', lambda I: utils.rcos(np.linspace(-1, 1, 9), 0.5, 1.0), True),
         ('bseq.add', lambda I: I['bseq'] + '0110', True),
+        ('bseq.inv', lambda I: (~I['bseq'], (~I['bseq']).ones(), I['bseq'].zeros(), I['bseq'][::2]), True),
+        ('esig.gt', lambda I: ((I['v'] > 1.0), (I['rx'] < 0.7)), True),
+        ('esig.w', lambda I: (I['v'].w(), I['v'].w(True), I['v'].t(), I['v'].power()), True),
+        ('osig.w', lambda I: (I['opt2'].w(True), I['opt2'].power(), I['opt2']('w', True)), True),
+        ('utils.shortest_int', lambda I: utils.shortest_int(I['vnd'] + 0.1 * np.sin(np.arange(I['vnd'].size)), 50), True),
+        ('utils.si', lambda I: (utils.si(2.5e-7, 's'), utils.si(1e3, 'Hz', 0), utils.si(gv.fs, 'Hz')), True),
+        ('utils.db', lambda I: (utils.db([1.0, 2.0, 10.0]), utils.idbm(3.0), utils.Q(np.array([0.0, 1.0])), utils.gaus(np.array([0.0, 1.0]), 0.5, 2.0)), True),
+        ('LASER.df', lambda I: d.LASER(I['t'], 3.0, lw=0.0, df=1e9), False),
+        ('MZM.bw', lambda I: d.MZM(I['cw'], I['v'], bias=-1.0, Vpi=2.0, BW=3e9), True),
+        ('PD.th', lambda I: d.PD(I['mod'], 3e9, include_noise='thermal-only', T=77.0), False),
+        ('LPF.c', lambda I: d.LPF(I['v'], 3e9), True),
+        ('DAC.bw', lambda I: d.DAC(I['bseq'], Vout=2.0, BW=3e9), True),
+        ('FIBER.b3', lambda I: d.FIBER(I['mod'], 10.0, alpha=0.2, beta_2=0.0, beta_3=0.2), True),
+        ('FIBER.nl1', lambda I: d.FIBER(I['mod'], 40.0, alpha=0.2, beta_2=-20.0, gamma=5.0, phi_max=0.05), True),
+        ('FBG.apo', lambda I: d.FBG(I['opt2'], fc=gv.f0, vdneff=1e-4, kL=1.0, apodization=lambda z: np.exp(-8 * z ** 2), print_params=False, retH=True), True),
+        ('FBG.apo2', lambda I: d.FBG(I['opt2'], fc=gv.f0, vdneff=1e-4, kL=1.0, apodization=lambda z: 0.6 + 0.8 * z, print_params=False, retH=True), True),
+        ('SDD.nd', lambda I: ppm.SDD(I['vnd'], 2), True),
+        ('PRBS.resume', lambda I: d.PRBS(9, 40, seed=77, return_seed=True), True),
         ('esig.ops', lambda I: (I['v'] * 2 - I['v'][::-1])('w'), True),
         ('osig.ops', lambda I: (I['opt2'] + I['opt2'][::-1])('t', True), True),
         # heavy entries (only at depth <= 2)
@@ -147,7 +165,7 @@ def menu():
         ('ppm.DSP.hard', lambda I: ppm.DSP(I['rx_lp'], 4, 'hard'), False),
         ('FBG', lambda I: d.FBG(I['mod'], fc=gv.f0, vdneff=1e-4, kL=2.0, print_params=False, retH=True), True),
     ]
-    heavy = {'GET_EYE', 'ook.DSP', 'ppm.DSP.hard', 'FBG'}
+    heavy = {'GET_EYE', 'ook.DSP', 'ppm.DSP.hard', 'FBG', 'FBG.apo', 'FBG.apo2'}
     return [(n, f, det, n in heavy) for n, f, det in M]
 
 
@@ -232,7 +250,9 @@ def fresh_solo_main(argv):
 
 
 def fresh_table(n, seeds):
-    """digests of every menu entry from a fresh interpreter (one subprocess per entry, 16 at a time)"""
+    """digests of every menu entry (n = count, or an explicit list of menu indices) from a fresh interpreter
+    (one subprocess per entry and grid, 16 at a time)"""
+    idx = list(range(n)) if isinstance(n, int) else list(n)
     import json, os, subprocess, sys
     from concurrent.futures import ThreadPoolExecutor
     env = dict(os.environ, OMP_NUM_THREADS='1', OPENBLAS_NUM_THREADS='1', MPLBACKEND='Agg', PYTHONHASHSEED='0')
@@ -247,7 +267,7 @@ def fresh_table(n, seeds):
         return {(i, g, s): 'FRESH-PROCESS-FAILED:' + p.stderr[-300:] for s in seeds}
     tab = {}
     with ThreadPoolExecutor(16) as ex:
-        for d in ex.map(one, [(i, g) for i in range(n) for g in range(len(GVS))]):
+        for d in ex.map(one, [(i, g) for i in idx for g in range(len(GVS))]):
             tab.update(d)
     return tab
 
@@ -379,6 +399,60 @@ def run_part_b(ctx):
     ctx.extra['call_sequences'] = {'depth2': n * n * len(seeds), 'gvswitch': len(sw), 'gvcross': len(cx) * len(cheap), 'depth3plus': nseq}
     # as a state graph: one canonical state per grid (gv snapshot, input digests) with a self-loop per executed call
     ctx.graph(states=G, transitions=ctx.stats.get('calls', 0))
+
+
+# ------------------------------------------------------------------ reuse by the other properties
+# Every property whose functions read the global grid gets a "call-history" part: the menu entries that concern it are run
+# under grid switches and in every order; an output that differs from the same call made first in a fresh interpreter shows
+# that the function's result depends on what was called before (memoised designs keyed without the sampling rate, scratch
+# buffers, cached results handed out twice) - which contradicts the functional statement of the property itself.
+HISTORY_GROUPS = {
+    'C01': ['esig.ops', 'osig.ops'],
+    'C02': ['esig.ops', 'osig.ops', 'esig.w', 'osig.w'],
+    'C03': ['DAC.', 'MZM.', 'PD.', 'SAMPLER', 'ook.DSP', 'ppm.DSP', 'ook.BER.cnt', 'ppm.BER.cnt', 'DM.a', 'FIBER.lin'],
+    'C04': ['PRBS'],
+    'C05': ['DAC.', 'SAMPLER'],
+    'C06': ['LASER', 'PM.', 'MZM.'],
+    'C07': ['DM.', 'FIBER.lin', 'FIBER.b3'],
+    'C08': ['FIBER.'],
+    'C09': ['PD.', 'LPF.'],
+    'C10': ['EDFA.', 'BPF.'],
+    'C11': ['LPF.', 'BPF.', 'DAC.bw', 'MZM.bw'],
+    'C12': ['PPM_', 'HDD', 'SDD'],
+    'C13': ['ook.tBER', 'ppm.tBER', 'utils.tBER', 'utils.p_ase', 'utils.avgV', 'utils.nvar', 'ook.TH', 'ppm.TH', 'ook.BER.est', 'ppm.BER.est'],
+    'C15': ['bseq.', 'esig.gt'],
+    'C16': ['FBG'],
+    'C17': ['GET_EYE', 'ook.TH'],
+    'C18': ['ADC.', 'utils.shortest_int'],
+    'C19': ['utils.str2array', 'utils.dec2bin', 'utils.rcos', 'utils.si', 'utils.db'],
+    'C20': ['SYNC'],
+}
+
+
+def run_history_part(ctx, prefixes):
+    C = setup()
+    M = C['menu']
+    sel = [i for i in range(len(M)) if any(M[i][0].startswith(p) for p in prefixes)]
+    if not sel:
+        return
+    G = len(GVS)
+    seeds = sorted({ctx.seed, 0})
+    s0 = ctx.seed
+    table = fresh_table(sel, seeds)
+    failed = [k for k, v in table.items() if str(v).startswith('FRESH-PROCESS-FAILED')]
+    if failed:
+        raise RuntimeError(f'fresh-process oracle failed for {failed[:3]}: {table[failed[0]]}')
+    ctx.rule(f'call-history part: the {len(sel)} menu calls of mcx.props.c14b that concern this property '
+             f'({[M[i][0] for i in sel]}) under {G} ambient grids; oracle = the same call made first in a fresh interpreter '
+             f'({len(sel) * G} subprocesses); every call twice per seed and grid, every grid switch g1,g2,g1, every ordered pair '
+             f'and every ordered pair across a grid switch; examined outputs are overwritten')
+    ctx.pmap('history.single', single_case, [(i, seeds, table) for i in sel], horizon=600, chunk=1, recheck=0, quiet=True)
+    sw = [((), s0, ((a, g1), (a, g2), (a, g1)), table) for a in sel for g1 in range(G) for g2 in range(G) if g1 != g2]
+    ctx.pmap('history.gvswitch', seq_case, sw, horizon=600, chunk=1, recheck=0, quiet=True)
+    pairs = [(((a, g1),), s0, tuple((b, g2) for b in sel), table) for a in sel for (g1, g2) in ((0, 0), (0, 1), (1, 0), (2, 0))]
+    ctx.pmap('history.pairs', seq_case, pairs, horizon=900, chunk=1, recheck=0, quiet=True)
+    ctx.extra['call_history_part'] = {'entries': [M[i][0] for i in sel], 'grids': GVS, 'fresh_processes': len(sel) * G,
+                                      'sequences': len(sw) + len(pairs) * len(sel)}
 
 
 if __name__ == '__main__':
